@@ -25,6 +25,7 @@ import TnVerif.Model.Stats
 import TnVerif.Model.Einsum
 import TnVerif.Model.DerivOps
 import TnVerif.Model.PartialSet
+import TnVerif.Model.Accepted
 /-
   Line-protocol driver (DESIGN §2.6).  One request per line on stdin, one answer per line on
   stdout.  Tokens are separated by blanks; numbers are integers or `p/q`.
@@ -233,6 +234,20 @@ def zeroThr : Rat :=
   mkRat e.1 e.2
 
 /-! commands -/
+/-! `accepted_inputs`: the rounding of the counts.  `torch.round` / Python's `round` = nearest integer, ties to
+    even, applied to the exact rational value (an integer is returned unchanged); a negative result is clamped
+    to 0 (the commands refuse tensors with a negative entry beforehand) -/
+def roundHalfEven (q : Rat) : Int :=
+  let f := q.floor
+  let r := q - f
+  if r < 1/2 then f else if 1/2 < r then f + 1 else if f % 2 == 0 then f else f + 1
+
+def toNatQ (q : Q) : Nat := (roundHalfEven q.v).toNat
+
+def showRows (ncols : Nat) (rows : List (List Nat)) : String :=
+  s!"R {rows.length} {ncols}" ++ String.join (rows.map fun r => String.join (r.map fun n => s!" {n}"))
+
+
 def run (cmd : String) : PM String := do
   match cmd with
   | "echo" => do let t ← pTensor; return "ok " ++ showTensor t.memo
@@ -669,6 +684,23 @@ def run (cmd : String) : PM String := do
       match t.partialStack cs.toList k with
       | some r => return "ok " ++ showTensor r.memo
       | none => return "err raise"
+  | "accepted" | "accepted_arr" => do
+      let t ← pTensor
+      if t.denseAll.any (fun q => q.v < 0) then return "err negative"
+      let r := if cmd == "accepted" then t.acceptedInputs toNatQ else t.acceptedInputsArr toNatQ
+      match r with
+      | none => return "err boundary"
+      | some rows => return "ok " ++ showRows t.length rows
+  | "accepted_rights" => do
+      let t ← pTensor
+      let t := t.tt
+      let sizes := t.map (·.core.rl) ++ [1]
+      let vs := (rightsList t).zip sizes
+      return s!"ok V {vs.length}" ++ String.join (vs.map fun (f, n) => " " ++ showQs ((List.range n).map f.get))
+  | "accepted_total" => do
+      let t ← pTensor
+      let x := sumAllTT t.tt
+      return "ok S " ++ showQ x ++ s!" N {toNatQ x}"
   | _ => throw s!"unknown command {cmd}"
 
 def handle (line : String) : String :=
